@@ -33,7 +33,7 @@ Ltac split_goal :=
          | H : negb _ = false |- _ => apply negb_false_iff in H
          | H : negb _ = true |- _ => apply negb_true_iff in H
          end;
-  repeat match goal with H : ?x = _ |- context [?x] => rewrite H end;
+  repeat match goal with H : registered ?a ?b = _ |- context [registered ?a ?b] => rewrite H end;
   cbn; try reflexivity; try discriminate; try congruence.
 
 Ltac open_input i :=
@@ -47,9 +47,9 @@ Lemma token_success_justified : forall i,
   success (model i) = true -> token_justified (i_cfg i) (i_reg i) (i_pres i) (i_grant i) = true.
 Proof.
   intro i; open_input i; cbn [i_endpoint i_cfg i_reg i_pres i_grant i_router].
-  intros -> Hgap.
-  unfold model, known_gap in *; cbn [i_endpoint i_cfg i_reg i_pres i_grant i_router] in *.
-  destruct r, g; cbn in Hgap |- *; destruct p as [| |[] ?| |[]|[]|[] []], meth;
+  all: intros -> Hgap.
+  all: unfold model, known_gap in *; cbn [i_endpoint i_cfg i_reg i_pres i_grant i_router] in *.
+  all: destruct r, g; cbn in Hgap |- *; destruct p as [| |[] ?| |[]|[]|[] []], meth;
     cbn in Hgap |- *; split_goal.
 Qed.
 
@@ -61,10 +61,10 @@ Lemma token_gap_still_authenticated : forall i,
   cred_valid (i_cfg i) (i_reg i) (i_pres i) true = true.
 Proof.
   intro i; open_input i; cbn [i_endpoint i_cfg i_reg i_pres i_grant i_router].
-  intros -> Hgap.
-  unfold model, known_gap in *; cbn [i_endpoint i_cfg i_reg i_pres i_grant i_router] in *.
-  destruct r, g; try discriminate Hgap.
-  destruct p as [| |[] ?| |[]|[]|[] []], meth; cbn; split_goal; split; reflexivity.
+  all: intros -> Hgap.
+  all: unfold model, known_gap in *; cbn [i_endpoint i_cfg i_reg i_pres i_grant i_router] in *.
+  all: destruct r, g; try discriminate Hgap.
+  all: destruct p as [| |[] ?| |[]|[]|[] []], meth; cbn; split_goal; split; reflexivity.
 Qed.
 
 Lemma introspect_success_justified : forall i,
@@ -72,8 +72,8 @@ Lemma introspect_success_justified : forall i,
   success (model i) = true -> introspect_justified (i_reg i) (i_pres i) = true.
 Proof.
   intro i; open_input i; cbn [i_endpoint i_cfg i_reg i_pres i_grant i_router].
-  intros ->. unfold model; cbn [i_endpoint i_cfg i_reg i_pres i_grant i_router].
-  destruct r; destruct p as [| |[] ?| |[]|[]|[] []], meth; cbn; split_goal.
+  all: intros ->; unfold model; cbn [i_endpoint i_cfg i_reg i_pres i_grant i_router].
+  all: destruct r; destruct p as [| |[] ?| |[]|[]|[] []], meth; cbn; split_goal.
 Qed.
 
 Lemma revoke_success_justified : forall i,
@@ -81,8 +81,8 @@ Lemma revoke_success_justified : forall i,
   success (model i) = true -> revoke_justified (i_reg i) (i_pres i) = true.
 Proof.
   intro i; open_input i; cbn [i_endpoint i_cfg i_reg i_pres i_grant i_router].
-  intros ->. unfold model; cbn [i_endpoint i_cfg i_reg i_pres i_grant i_router].
-  destruct r; destruct p as [| |[] ?| |[]|[]|[] []], meth; cbn; split_goal.
+  all: intros ->; unfold model; cbn [i_endpoint i_cfg i_reg i_pres i_grant i_router].
+  all: destruct r; destruct p as [| |[] ?| |[]|[]|[] []], meth; cbn; split_goal.
 Qed.
 
 Lemma device_authz_success_justified : forall i,
@@ -90,8 +90,8 @@ Lemma device_authz_success_justified : forall i,
   success (model i) = true -> device_authz_justified (i_reg i) (i_pres i) = true.
 Proof.
   intro i; open_input i; cbn [i_endpoint i_cfg i_reg i_pres i_grant i_router].
-  intros ->. unfold model; cbn [i_endpoint i_cfg i_reg i_pres i_grant i_router].
-  destruct r; destruct p as [| |[] ?| |[]|[]|[] []], meth; cbn; split_goal.
+  all: intros ->; unfold model; cbn [i_endpoint i_cfg i_reg i_pres i_grant i_router].
+  all: destruct r; destruct p as [| |[] ?| |[]|[]|[] []], meth; cbn; split_goal.
 Qed.
 
 (* ---------------- refusals *)
@@ -104,8 +104,8 @@ Lemma refusal_shape_model : forall i,
   | _ => False
   end.
 Proof.
-  intro i; open_input i. unfold model; cbn [i_endpoint i_cfg i_reg i_pres i_grant i_router].
-  destruct r, e; try destruct g; destruct p as [| |[] ?| |[]|[]|[] []], meth; cbn; split_goal.
+  intro i; open_input i; unfold model; cbn [i_endpoint i_cfg i_reg i_pres i_grant i_router].
+  all: destruct e; [destruct g| | |]; destruct r; destruct p as [| |[] ?| |[]|[]|[] []], meth; cbn; split_goal.
 Qed.
 
 (* ---------------- the predicate on the model *)
@@ -253,33 +253,30 @@ Proof.
     destruct (token_gap c rg p Hg Hs) as [_ Hc]. unfold cred_valid in Hc. rewrite Hk in Hc. discriminate Hc.
 Qed.
 
-(* a secret-registered client that presents no right secret gets no token and no metadata *)
+(* a secret-registered client that presents neither its secret nor a valid assertion gets no
+   token and no metadata *)
 Lemma wrong_secret_refused : forall r e c rg p g,
-  has_secret (r_meth rg) = true -> presents_right_secret p = false -> e <> EDeviceAuthz -> g <> GBearer ->
+  has_secret (r_meth rg) = true -> presents_right_secret p = false -> presents_ok_assertion p = false ->
+  e <> EDeviceAuthz -> g <> GBearer ->
   success (model (mkInput r e c rg p g)) = false.
 Proof.
-  intros r e c rg p g Hm Hp He Hgb.
+  intros r e c rg p g Hm Hp Ha He Hgb.
   destruct (success (model (mkInput r e c rg p g))) eqn:Hs; [|reflexivity].
+  assert (Hcv : forall b, cred_valid c rg p b = false).
+  { intro b. unfold cred_valid. rewrite Hp, Ha.
+    destruct (r_meth rg); try discriminate Hm; cbn; now rewrite andb_false_r. }
   destruct (known_gap (mkInput r e c rg p g)) eqn:Hg.
   - unfold known_gap in Hg; cbn [i_router i_endpoint i_grant i_reg] in Hg.
     destruct r, e, g; try discriminate Hg. apply negb_true_iff in Hg.
-    destruct (token_gap c rg p Hg Hs) as [_ Hc]. unfold cred_valid in Hc.
-    rewrite Hp in Hc. destruct (r_meth rg); cbn in *; try discriminate; rewrite ?andb_false_r in Hc; discriminate.
+    destruct (token_gap c rg p Hg Hs) as [_ Hc]. rewrite Hcv in Hc. discriminate Hc.
   - pose proof (justified_model _ Hg Hs) as Hj. unfold justified in Hj; cbn [i_endpoint i_cfg i_reg i_pres i_grant] in Hj.
-    destruct e; cbn in Hj; try congruence.
-    + unfold token_justified, cred_valid in Hj. rewrite Hp in Hj.
-      destruct g; try congruence; destruct (r_meth rg); cbn in *; try discriminate;
-        rewrite ?andb_false_r in Hj; discriminate.
-    + unfold introspect_justified, authenticated in Hj. rewrite Hp, Hm in Hj.
-      destruct (r_meth rg); try discriminate Hm; cbn in Hj.
-      all: assert (Ha : presents_ok_assertion p = true)
-             by (destruct (r_known rg), (r_key rg), (presents_ok_assertion p); cbn in Hj; congruence).
-      all: destruct p as [| |[] ?| |[]|[]|[] []]; cbn in *; discriminate.
-    + unfold revoke_justified, authenticated in Hj. rewrite Hp, Hm in Hj.
-      destruct (r_meth rg); try discriminate Hm; cbn in Hj; rewrite ?andb_false_r, ?orb_false_r in Hj.
-      all: assert (Ha : presents_ok_assertion p = true)
-             by (destruct (r_known rg), (r_key rg), (presents_ok_assertion p); cbn in Hj; congruence).
-      all: destruct p as [| |[] ?| |[]|[]|[] []]; cbn in *; discriminate.
+    destruct e; try congruence.
+    + unfold token_justified in Hj. rewrite Hcv in Hj.
+      destruct g; try congruence; rewrite ?andb_false_r in Hj; discriminate Hj.
+    + unfold introspect_justified, authenticated in Hj. rewrite Hp, Ha in Hj.
+      rewrite ?andb_false_r in Hj. discriminate Hj.
+    + unfold revoke_justified, authenticated in Hj. rewrite Hp, Ha in Hj.
+      destruct (r_meth rg); try discriminate Hm; cbn in Hj; rewrite ?andb_false_r in Hj; discriminate Hj.
 Qed.
 
 (* a grant that is not registered for the client yields no token (outside the recorded gap),
@@ -314,7 +311,7 @@ Proof.
   - unfold known_gap in Hg; cbn [i_router i_endpoint i_grant i_reg] in Hg.
     destruct r, g; try discriminate Hg. apply negb_true_iff in Hg.
     destruct (token_gap c rg p Hg Hs) as [Hd _]. cbn in Hc. congruence.
-  - pose proof (token_success_justified _ eq_refl Hg Hs) as Hj. cbn [i_cfg i_reg i_pres i_grant] in Hj.
+  - pose proof (token_success_justified (mkInput r EToken c rg p g) eq_refl Hg Hs) as Hj. cbn [i_cfg i_reg i_pres i_grant] in Hj.
     unfold token_justified in Hj. rewrite Hc in Hj. destruct g; cbn in *; discriminate.
 Qed.
 
